@@ -28,6 +28,7 @@ type COp struct {
 	Same  bool   `json:"same,omitempty"` // write the constant value "same" instead of a value unique to this call
 	Exps  []bool `json:"exps,omitempty"` // putmany: per-record expiry flags (nil: Exp for all); Keys may then repeat - the last record of a key counts
 	Yield int    `json:"yield,omitempty"`
+	Past  bool   `json:"past,omitempty"`  // write a record whose expiry passed an hour ago (in-memory cases only): the key is absent afterwards
 	Short bool   `json:"short,omitempty"` // write with an expiry 1 ms ahead (wire-scheduled Redis cases only: miniredis does not age it, so the record stays in Redis with an ExpiresAt in the past - a server whose clock lags)
 }
 
@@ -55,6 +56,7 @@ type HOp struct {
 	Repeated bool   `json:"repeated,omitempty"` // mput: the key occurs more than once in this batch
 	Last     bool   `json:"last,omitempty"`     // mput: this is the last record of the key in the batch
 	Short    bool   `json:"short,omitempty"`    // the write carried an expiry 1 ms ahead
+	Past     bool   `json:"past,omitempty"`     // the write carried an expiry that had passed: it leaves the key absent
 }
 
 func firstOf(keys []string, k string) int {
@@ -130,11 +132,15 @@ func ExecuteWith(c CCase, stFor func(ti int) kvs.Storage, run func(start chan st
 					e := time.Now().Add(time.Millisecond)
 					exp = &e
 				}
+				if op.Past {
+					e := time.Now().Add(-time.Hour)
+					exp = &e
+				}
 				passVer := "" // what the caller leaves in Record.Version for create/put/putmany: its last seen version
 				if s := seen[key]; len(s) > 0 {
 					passVer = s[len(s)-1]
 				}
-				h := HOp{Thread: ti, Key: key, Short: op.Short && (op.K == "create" || op.K == "put" || op.K == "cas")}
+				h := HOp{Thread: ti, Key: key, Short: op.Short && (op.K == "create" || op.K == "put" || op.K == "cas"), Past: op.Past}
 				switch op.K {
 				case "create":
 					h.Kind, h.Val, h.Arg = "create", val, passVer
@@ -234,7 +240,7 @@ func ExecuteWith(c CCase, stFor func(ti int) kvs.Storage, run func(start chan st
 						// a key repeated inside one batch is written several times; on the Redis path with expiries these are separate
 						// writes (intermediate values can be seen), so each is a sub-operation of its own; that the LAST one is what
 						// remains is checked separately (CheckHistory, "last record of the batch wins")
-						local = append(local, HOp{Thread: ti, Kind: "mput", Key: k, Val: string(recs[j].Value), Arg: args[j], Call: call, Ret: ret, Err: errClass(err),
+						local = append(local, HOp{Thread: ti, Kind: "mput", Key: k, Val: string(recs[j].Value), Arg: args[j], Call: call, Ret: ret, Err: errClass(err), Past: op.Past && op.Exps == nil,
 							Repeated: lastOf[k] != j || firstOf(keys, k) != j, Last: lastOf[k] == j})
 					}
 				default:
@@ -276,6 +282,9 @@ func stepKV(st kvState, h HOp) (bool, kvState) {
 	}
 	if ok && ns.Exists && isWrite(h.Kind) && h.Err == "" && h.Kind != "delete" {
 		ns.Zombie = h.Short
+		if h.Past {
+			ns = kvState{} // written already expired: the key is absent from now on
+		}
 	}
 	return ok, ns
 }
@@ -444,8 +453,8 @@ func CheckHistory(backend string, hist []HOp) (info CInfo, v *vstat.Violation) {
 			if h.Kind == "create" && h.Err == "exist" {
 				cls["create_exist"] = true
 			}
-			if h.Kind == "delete" {
-				deletes++
+			if h.Kind == "delete" || (h.Past && isWrite(h.Kind)) {
+				deletes++ // a write of an already expired record leaves the key absent, like a Delete
 			}
 			if (h.Kind == "get" || h.Kind == "mget") && h.Err == "" && h.Ver == "" && (h.Kind == "get" || h.Found) {
 				return info, vstat.V(backend+":version-empty", "%s read key %q with an empty version", h.Kind, key)
